@@ -362,6 +362,8 @@ class Tensor:
         if is_sym(x):
             if z3.is_bool(x):
                 return explore.EXP.branch(x)
+            if ITEM_SYM_HOOK is not None:
+                return ITEM_SYM_HOOK(x)
             if z3.is_int(x):
                 return explore.EXP.concretize_any(x)  # data-dependent python int: fork over every feasible value
             raise Unsupported("item() on a symbolic real number")
@@ -1964,6 +1966,7 @@ def randint(low, high=None, size=None, generator=None, device=None, dtype=None, 
     return t
 
 
+ITEM_SYM_HOOK = None  # harness hook: what .item() returns for a symbolic number (default: fork over integer values)
 RANDINT_HOOK = None  # harness hook, e.g. case-split a small-range draw that later appears as a divisor
 
 
